@@ -272,6 +272,9 @@ func runC18(c *ctx) {
 	for _, s := range []string{"1e308", "1e309", "-1e309", "1e-400", "0x10", "1_0", "Infinity", "NaN", "٣", "1e+5", "00012", "-0", "-0.0e0", "1.", ".5", "1e", "--1", "1 ", " 1"} {
 		c.diffEval("$number(s)", map[string]interface{}{"s": s}, "number-string")
 	}
+	for _, rp := range []string{"$round(1.7976931348623157e308, -308)", "$round(1.5e308, -308)", "$round(-1.7e308, -307)", "$round(9.5e307, -307)", "$round(1e308, -308)", "$round(4.9e307, -308)", "$round(5e-324, 400)", "$round(1.5, -400)"} {
+		c.diffEval(rp, nil, "round-extreme")
+	}
 	c.diffEval("[$number(true), $number(false), $number(3)]", nil, "number-other")
 	c.diffEval("$number([1])", nil, "number-other")
 	c.diffEval("$number(null)", nil, "number-other")
@@ -323,6 +326,15 @@ func c18GenPicture(r *rng) c18Pic {
 	} else if r.chance(1, 10) {
 		p.zero = '٠'
 		p.opts = `{"zero-digit": "٠"}`
+	} else if r.chance(1, 12) {
+		// digit families whose members do not all have the same UTF-8 width (z..U+0083, U+07F8..U+0801)
+		if r.chance(1, 2) {
+			p.zero = 'z'
+			p.opts = `{"zero-digit": "z"}`
+		} else {
+			p.zero = '\u07f8'
+			p.opts = "{\"zero-digit\": \"\u07f8\"}"
+		}
 	}
 	z := string(p.zero)
 	optInt := r.intn(4)
@@ -405,6 +417,10 @@ func c18GenPicture(r *rng) c18Pic {
 	pres := []string{"", "", "$", "(", "x ", "~"}
 	sufs := []string{"", "", ")", " USD", "!", "~"}
 	p.pre, p.suf = r.pick(pres), r.pick(sufs)
+	if p.zero == 'z' {
+		// '~' is the digit 4 of the family z { | } ~ …: not a passive character there
+		p.pre, p.suf = strings.ReplaceAll(p.pre, "~", "*"), strings.ReplaceAll(p.suf, "~", "*")
+	}
 	switch r.intn(8) {
 	case 0:
 		p.suf = "%" + p.suf
